@@ -1114,8 +1114,10 @@ class StrategyBase(Node):
                 positions[x.name] = x.positions
         # trades are diff
         trades = positions.diff()
-        # must adjust first row
-        trades.iloc[0] = positions.iloc[0]
+        # must adjust first row (if any: a strategy that never traded has no
+        # securities, hence no rows)
+        if len(trades.index) > 0:
+            trades.iloc[0] = positions.iloc[0]
         # now convert to unstacked series, dropping nans along the way
         trades = trades[trades != 0].unstack().dropna()
 
